@@ -2,6 +2,7 @@ CONSTANTS Pkgs <- P3
  Order <- O3
  Gens <- GensAB
  Dep <- DepR
+ Closure <- MCClosure
  Under <- UnderSib3
  RootPkg = "none"
  HashCoversSum = FALSE
